@@ -1,6 +1,8 @@
 import NeoFS.Lemmas.NNSRes
 import NeoFS.Lemmas.NNSAuth
 import NeoFS.Lemmas.NNSHex
+import NeoFS.Generated.Consts
+import NeoFS.Generated.Footprint
 set_option linter.unusedSimpArgs false
 set_option linter.unusedVariables false
 /-! # C12 — NNS records and resolution reflect exactly the record operations performed
@@ -717,5 +719,31 @@ example : resolve (run init (chainHist [(aCom, bCom), (bCom, cCom), (cCom, dCom)
   decide
 example : resolve (run init (chainHist [(aCom, bCom), (bCom, aCom)])) (envU U2 4000) aCom 16 = none := by decide
 example : resolve (run init (chainHist [(aCom, bCom), (bCom, aCom)])) (envU U2 4000) aCom 5 = some [bCom] := by decide
+
+/-! ## Frame of the model, regenerated: who can write records
+
+Checked by kernel evaluation over `NeoFS.Generated.Footprint.table` (grouped by contract: `contracts`), the MAY-WRITE footprint recomputed from the Go sources on
+every run (`extract footprint`; `Model/Footprint.lean`). -/
+section Footprint
+open NeoFS.Footprint NeoFS.Generated.Footprint
+
+def fpRecords : Fam := startingWith NeoFS.Generated.nns_prefixRecord_bytes
+
+/-- "getRecords/getAllRecords/resolve reflect exactly the successful addRecord/setRecord/deleteRecords calls": records are put only
+by these, by the methods that write the SOA record (register, registerTLD, updateSOA) and by the upgrade migration, and are
+deleted only by `deleteRecords`. The record methods write nothing but records. -/
+theorem records_written_only_by_the_record_methods :
+    onlyBy contracts "nns" "put" fpRecords
+      ["addRecord", "setRecord", "deleteRecords", "register", "registerTLD", "updateSOA", "_deploy"] = true ∧
+    onlyBy contracts "nns" "delete" fpRecords ["deleteRecords"] = true ∧
+    ["addRecord", "setRecord", "deleteRecords", "updateSOA"].all (fun m => writesWithin contracts "nns" m [fpRecords]) = true := by
+  decide +kernel
+
+example : does contracts "nns" "addRecord" "put" fpRecords = true ∧ does contracts "nns" "setRecord" "put" fpRecords = true ∧
+    does contracts "nns" "deleteRecords" "delete" fpRecords = true ∧ does contracts "nns" "deleteRecords" "put" fpRecords = true := by
+  decide +kernel
+example : onlyBy (withRow contracts ⟨"nns", "renew", "delete", "", "", NeoFS.Generated.nns_prefixRecord_bytes ++ [7], false⟩)
+    "nns" "delete" fpRecords ["deleteRecords"] = false := by decide +kernel
+end Footprint
 
 end NeoFS.Props.C12
